@@ -109,6 +109,10 @@ type c10case struct {
 	model  wl.Model
 	honest [][]byte // honest proof per block (index b-1)
 	desc   string
+	// one verifier object per case that receives every other submission
+	ver       *wmpt.WeightedMerkleTrie
+	nver      int
+	useShared bool
 }
 
 // try submits a forged proof for block b; a forgery is a violation iff verification returns no error, the trusted
@@ -129,7 +133,18 @@ func (k *c10case) try(class string, b uint64, forged []byte) {
 				c.Count("verify_panics_on_forged_proofs", 1)
 			}
 		}()
-		h, val, err = wmpt.New(nil, nil).VerifyBlockProof(b, forged)
+		// every other submission goes to one verifier object that lives as long as the case (a light client keeps its
+		// verifier): what it accepted or rejected before has no bearing on the next answer
+		ver := wmpt.New(nil, nil)
+		if k.nver++; k.nver%2 == 0 || k.useShared {
+			if k.ver == nil {
+				k.ver = wmpt.New(nil, nil)
+			}
+			ver = k.ver
+			c.Count("submissions_to_a_long_lived_verifier", 1)
+		}
+		k.useShared = false
+		h, val, err = ver.VerifyBlockProof(b, forged)
 	}()
 	if err != nil {
 		c.Count("rejected_with_error", 1)
@@ -408,6 +423,13 @@ func runC10(c *fw.Ctx) {
 		for tries := 0; tries < 6; tries++ {
 			b2 := 1 + uint64(r.Intn(int(W)))
 			if b2 != b {
+				if tries%2 == 0 { // the long-lived verifier has just accepted these very bytes for the block they belong to
+					if k.ver == nil {
+						k.ver = wmpt.New(nil, nil)
+					}
+					_, _, _ = k.ver.VerifyBlockProof(b2, k.honest[b2-1])
+					k.useShared = true
+				}
 				k.try("T4 honest proof of another block", b, k.honest[b2-1])
 			}
 			n2 := decProof(k.honest[b2-1])
@@ -521,7 +543,7 @@ func init() {
 			return 1280
 		},
 		Run: runC10,
-		Floors: map[string]int64{"tries_with_readded_entries_and_gc": 300, "snapshot_views_checked_after_live_updates": 300, "proof_attempts_before_the_batch_was_written": 300, "deepest_path_tries": 1, "max:honest_proof_elements": 60, "tries": 1000, "honest_proofs_verified": 20000, "tamperings": 1000000, "tamper:T9 re-weighting + spliced tail with inflated short-node weights": 100000, "tamper:T2 sum-changing re-weighting": 10000, "tamper:T1 sum-preserving re-weighting": 10000, "tamper:T3 swapped sibling hashes": 10000,
+		Floors: map[string]int64{"submissions_to_a_long_lived_verifier": 500000, "tries_with_readded_entries_and_gc": 300, "snapshot_views_checked_after_live_updates": 300, "proof_attempts_before_the_batch_was_written": 300, "deepest_path_tries": 1, "max:honest_proof_elements": 60, "tries": 1000, "honest_proofs_verified": 20000, "tamperings": 1000000, "tamper:T9 re-weighting + spliced tail with inflated short-node weights": 100000, "tamper:T2 sum-changing re-weighting": 10000, "tamper:T1 sum-preserving re-weighting": 10000, "tamper:T3 swapped sibling hashes": 10000,
 			"tamper:T4 honest proof of another block": 10000, "tamper:T5 dropped element": 10000, "tamper:T6 value weight edited": 5000, "tamper:T7 element replaced by a hash node": 10000, "tamper:T8 bit flips": 50000, "rejected_with_error": 100000, "rejected_other_root": 100000, "same_weight_overwrites": 1000, "tamper:T6 long value edited beyond byte 32": 500},
 		Assumptions: []string{
 			"the adversarial half ranges over structured tamperings of honest proofs and random byte edits, not over all byte strings",
